@@ -229,6 +229,96 @@ pub fn structured(orig: &[u8], map: &ProofMap, rng: &mut Rng, digest: usize) -> 
             },
         }
     }
+    // element-granular edits: blobs grown by a zero byte, grown / shrunk by one field element
+    let field = |name: &str| map.fields.iter().find(|f| f.name == name);
+    let base_bytes = field("context.field_modulus").map(|f| f.len).unwrap_or(0);
+    let ext = field("context.options.extension").map(|f| orig[f.off] as usize).unwrap_or(1).clamp(1, 3);
+    let elem = base_bytes * ext;
+    if elem > 0 {
+        for f in map.fields.iter().filter(|f| f.kind == Kind::Blob) {
+            let end = f.off + f.len;
+            let mut b = orig.to_vec();
+            b.insert(end, 0);
+            fix_lengths(map, &mut b, f.off, 1);
+            out.push(Mutant { class: format!("blob-grow-zero-byte:{}", generic(&f.name)), bytes: b });
+            // one more element: a copy of the blob's last element (canonical by construction) or zeros
+            for zero in [false, true] {
+                let ins = if !zero && f.len >= elem { orig[end - elem..end].to_vec() } else { vec![0u8; elem] };
+                let mut b = orig.to_vec();
+                b.splice(end..end, ins);
+                fix_lengths(map, &mut b, f.off, elem as isize);
+                out.push(Mutant { class: format!("blob-grow-element:{}", generic(&f.name)), bytes: b });
+            }
+            if f.len >= elem {
+                let mut b = orig.to_vec();
+                b.drain(end - elem..end);
+                fix_lengths(map, &mut b, f.off, -(elem as isize));
+                out.push(Mutant { class: format!("blob-shrink-element:{}", generic(&f.name)), bytes: b });
+            }
+        }
+        // out-of-domain trace frame re-encoded with another frame size (1, 3, 4 rows per column), the
+        // element count kept consistent with the frame-size byte; one column added / removed
+        if let Some(f) = field("ood.trace_states") {
+            if f.len > 1 && (f.len - 1) % (2 * elem) == 0 {
+                let cols = (f.len - 1) / (2 * elem);
+                let body = &orig[f.off + 1..f.off + f.len];
+                for k in [1usize, 3, 4] {
+                    let mut nb = vec![k as u8];
+                    for c in 0..cols {
+                        let pair = &body[c * 2 * elem..(c + 1) * 2 * elem];
+                        if k == 1 {
+                            nb.extend_from_slice(&pair[..elem]);
+                        } else {
+                            nb.extend_from_slice(pair);
+                            for _ in 2..k {
+                                nb.extend_from_slice(&pair[..elem]);
+                            }
+                        }
+                    }
+                    let mut b = orig.to_vec();
+                    let delta = nb.len() as isize - f.len as isize;
+                    b.splice(f.off..f.off + f.len, nb);
+                    fix_lengths(map, &mut b, f.off, delta);
+                    out.push(Mutant { class: format!("ood-frame-size-{k}-with-consistent-element-count"), bytes: b });
+                }
+                // same frame size, one column more / fewer
+                let mut b = orig.to_vec();
+                let end = f.off + f.len;
+                b.splice(end..end, body[..2 * elem].to_vec());
+                fix_lengths(map, &mut b, f.off, 2 * elem as isize);
+                out.push(Mutant { class: "ood-frame-column-added".into(), bytes: b });
+                if cols > 1 {
+                    let mut b = orig.to_vec();
+                    b.drain(end - 2 * elem..end);
+                    fix_lengths(map, &mut b, f.off, -(2 * elem as isize));
+                    out.push(Mutant { class: "ood-frame-column-removed".into(), bytes: b });
+                }
+            }
+        }
+        // Lagrange kernel frame: injected where the proof has none, resized where it has one
+        if let (Some(l), Some(t)) = (field("ood.lagrange_states"), field("ood.trace_states")) {
+            if l.len >= 1 && t.len > elem {
+                let sample = orig[t.off + 1..t.off + 1 + elem].to_vec();
+                let cur = orig[l.off] as usize;
+                let sizes: Vec<usize> = if cur == 0 { vec![1, 2, 4, 9] } else { vec![0, cur - 1, cur + 1] };
+                for k in sizes {
+                    let mut nb = vec![k as u8];
+                    for j in 0..k {
+                        if cur > 0 && j < cur {
+                            nb.extend_from_slice(&orig[l.off + 1 + j * elem..l.off + 1 + (j + 1) * elem]);
+                        } else {
+                            nb.extend_from_slice(&sample);
+                        }
+                    }
+                    let mut b = orig.to_vec();
+                    let delta = nb.len() as isize - l.len as isize;
+                    b.splice(l.off..l.off + l.len, nb);
+                    fix_lengths(map, &mut b, l.off, delta);
+                    out.push(Mutant { class: format!("ood-lagrange-frame-{}", if cur == 0 { "injected" } else { "resized" }), bytes: b });
+                }
+            }
+        }
+    }
     // FRI layer surgery: remove / duplicate / swap whole layer records, with the count fixed or not
     let nl_off = map.fields.iter().find(|f| f.name == "fri.num_layers").map(|f| f.off);
     if let Some(nl_off) = nl_off {
